@@ -333,7 +333,7 @@ PROPS["C17"] = {
     "technique": "property-based testing (rapid) of generated sender/target populations over real remotes; per-flow sequence oracle closed by final markers; scripted unreachable episodes with a dead-letter count oracle",
     "level_text": "Generated-input search over real TCP; batch formation and interleavings are sampled by timing (C15 is the deterministic counterpart for the encoding).",
     "level_note": "loss shows only through a final marker that overtook a message; nothing arriving at all is a timeout = inconclusive; connection loss in mid-stream is not generated",
-    "assumptions": ENG_ASSUME + ["free loopback ports are picked by listening on :0 and closing; a port stolen in between makes the case inconclusive"],
+    "assumptions": ENG_ASSUME + ["loopback ports come from a per-process block below the kernel's ephemeral range (10000 + (pid mod 400)*50 + k); the address of an unreachable peer is held by a bound, non-listening socket"],
     "legs": [rapid("flows", "net", "TestRemoteFlows", 60, 1200, shards=(2, 12)),
              plain("unreach", "net", "TestUnreachable", timeout={"quick": 300, "thorough": 600})],
 }
